@@ -644,6 +644,29 @@ func (x *VC) evCall(e *SExpr, env *SEnv) *Val {
 				return &Val{K: KScalar, T: "(bv2nat " + v.T + ")", S: "Int", GT: types.Typ[types.UntypedInt]}
 			}
 			return &Val{K: KScalar, T: v.T, S: "Int", GT: types.Typ[types.UntypedInt]}
+		case "deref":
+			// value stored behind a pointer to a scalar
+			v := x.ev(args[0], env)
+			pt, ok := v.GT.Underlying().(*types.Pointer)
+			if !ok {
+				x.specFail(e, "deref of non-pointer")
+			}
+			if v.K == KAddr {
+				return x.loadAddr(v.A, env.cur)
+			}
+			return x.loadAddr(&Addr{Kind: ADeref, Base: v.T, ElemT: pt.Elem()}, env.cur)
+		case "spawned":
+			// number of `go f()` statements executed for f (by SSA function name)
+			if args[0].Op != "str" {
+				x.specFail(e, "spawned needs a string literal")
+			}
+			c := x.comp("G|spawned:"+args[0].Name, "", "Int")
+			return &Val{K: KScalar, T: x.get(env.cur, c), S: "Int", GT: types.Typ[types.UntypedInt]}
+		case "sent":
+			// number of values sent on a channel
+			v := x.ev(args[0], env)
+			c := x.comp("G|chan.sent", "Int", "Int")
+			return &Val{K: KScalar, T: sSel(x.get(env.cur, c), v.T), S: "Int", GT: types.Typ[types.UntypedInt]}
 		case "strlt":
 			a, b := x.ev(args[0], env), x.ev(args[1], env)
 			return bval("(str.< " + a.T + " " + b.T + ")")
